@@ -186,4 +186,5 @@ def run(ctx):
     borrow(ctx, 'C05', ['STAGING'], 'a staging loop that delivers more (or other) items for one large request than for the same request in pieces makes the samples depend on the partition')
     borrow(ctx, 'C05', ['FRAME-ALIGN'], 'a reader whose staging chunk is not a whole number of frames delivers different samples for one long read than for several short ones')
     borrow(ctx, 'C13', ['GETDATA-MIN'], 'a chunk query that does not put the file position back makes the next read deliver bytes from somewhere else: the audio then depends on the call history, not on the frame position')
+    borrow(ctx, 'C04', ['WIDE-PRODUCT'], 'a codec seek that computes the byte offset of a block, or the position it reports, in 32-bit arithmetic lands somewhere else once the file is larger than 2 GB')
 
